@@ -20,6 +20,23 @@ theorem resolveStr_ext {p p' : List (String × J)} (h : ∀ k, J.lookup k p = J.
   | none => rfl
   | some key => simp only [resolveSsm_ext h]
 
+mutual
+  theorem renderScalars_ext {p p' : List (String × J)} (h : ∀ k, J.lookup k p = J.lookup k p') :
+      (v : J) → renderScalars p v = renderScalars p' v
+    | .bool _ => rfl
+    | .int _ => rfl
+    | .num _ => rfl
+    | .null => rfl
+    | .leaf _ _ => rfl
+    | .obj _ => rfl
+    | .str s => by simp only [renderScalars, resolveStr_ext h]
+    | .arr xs => by simp only [renderScalars, renderList_ext h xs]
+  theorem renderList_ext {p p' : List (String × J)} (h : ∀ k, J.lookup k p = J.lookup k p') :
+      (xs : List J) → renderScalars.renderList p xs = renderScalars.renderList p' xs
+    | [] => rfl
+    | x :: xs => by simp only [renderScalars.renderList, renderScalars_ext h x, renderList_ext h xs]
+end
+
 theorem subLookup_ext {p p' : List (String × J)} (h : ∀ k, J.lookup k p = J.lookup k p')
     (loc : List (String × J)) (n : List Char) : subLookup p loc n = subLookup p' loc n := by
   unfold subLookup
@@ -38,7 +55,8 @@ theorem applyFn_ext {e e' : Env} (h : EnvEquiv e e') (fn : String) (raw : J) (wh
     (each : List (Option J)) : applyFn e fn raw whole each = applyFn e' fn raw whole each := by
   unfold applyFn
   have hs : subText e.params = subText e'.params := funext fun loc => funext fun t => subText_ext h.params loc t
-  simp only [h.params, h.mappings, condOf_ext h, hs]
+  have hr : renderScalars e.params = renderScalars e'.params := funext (renderScalars_ext h.params)
+  simp only [h.params, h.mappings, condOf_ext h, hs, hr]
 
 mutual
   theorem resolve_ext {e e' : Env} (h : EnvEquiv e e') : (j : J) → Spec.resolve e j = Spec.resolve e' j
